@@ -764,6 +764,110 @@ fn fault_enumeration(case: &mut Case, b: &Built, rng: &mut Rng, max_leaves: usiz
         "example_paths": paths.iter().take(3).map(|p| p.join(".")).collect::<Vec<_>>()}));
 }
 
+/// A core that Main does not reach, handed to link next to the others (what `goml link out/*.core` picks up): package
+/// Extra imports Lib, Main imports Lib only. After an interface-visible edit of Lib, with Lib and Main rebuilt and
+/// Extra not, `link [Main, Lib, Extra]` combines Extra with an interface of Lib it was not built against and must
+/// be rejected; `link [Main, Lib]` and the link after rebuilding Extra must succeed. (Added after a seeded change that
+/// checked only the cores reachable from Main.)
+fn extra_core_scenario(case: &mut Case, scratch: &Path, variant: usize) {
+    let root = scratch.join(format!("c15-extra-{}-{}", std::process::id(), variant));
+    let _ = std::fs::remove_dir_all(&root);
+    let art = root.join(".artifacts");
+    let lib_v1 = "package Lib\n\nstruct Pt { x: int32 }\n\nfn mk() -> Pt { Pt { x: 1 } }\n";
+    // interface-visible edits of Lib that keep Main and Extra compiling against the new interface
+    let lib_v2 = match variant {
+        0 => "package Lib\n\nstruct Pt { x: int32 }\n\nfn mk() -> Pt { Pt { x: 1 } }\n\nfn added() -> int32 { 2 }\n",
+        1 => "package Lib\n\nstruct Pt { x: int32, y: int32 }\n\nfn mk() -> Pt { Pt { x: 1, y: 2 } }\n",
+        _ => "package Lib\n\nstruct Pt { x: int32 }\n\nenum Kind { A }\n\nfn mk() -> Pt { Pt { x: 1 } }\n",
+    };
+    let extra = "package Extra\nimport Lib\n\nstruct Wrap { p: Lib::Pt }\n\nfn wrapped() -> int32 { Lib::mk().x }\n";
+    let main = "package Main\nimport Lib\n\nfn main() -> unit {\n    let _ = string_println(int32_to_string(Lib::mk().x));\n    ()\n}\n";
+    let write = |rel: &str, text: &str| -> bool {
+        let p = root.join(rel);
+        if let Some(d) = p.parent() {
+            let _ = std::fs::create_dir_all(d);
+        }
+        std::fs::write(&p, text).is_ok()
+    };
+    if std::fs::create_dir_all(&art).is_err() || !write("Lib/lib.gom", lib_v1) || !write("Extra/lib.gom", extra) || !write("main.gom", main) {
+        case.inconclusive("cannot materialise the extra-core project");
+        return;
+    }
+    let build = |pkg: &str, file: &str| -> Result<(), String> {
+        let unit = separate::build_package(separate::PackageInputs { package: pkg.to_string(), input_files: vec![root.join(file)], interface_paths: vec![art.clone()] }).map_err(|e| crate::capi::err_messages(&e).join("; "))?;
+        std::fs::write(art.join(format!("{}.interface", pkg)), serde_json::to_string_pretty(&unit.interface).map_err(|e| e.to_string())?).map_err(|e| e.to_string())?;
+        std::fs::write(art.join(format!("{}.core", pkg)), serde_json::to_string_pretty(&unit).map_err(|e| e.to_string())?).map_err(|e| e.to_string())?;
+        Ok(())
+    };
+    let link = |pkgs: &[&str]| -> Result<(), String> {
+        let mut cores = Vec::new();
+        for p in pkgs {
+            cores.push(separate::read_core(&art.join(format!("{}.core", p))).map_err(|e| crate::capi::err_messages(&e).join("; "))?);
+        }
+        separate::link_cores(cores).map(|_| ()).map_err(|e| crate::capi::err_messages(&e).join("; "))
+    };
+    let mut log: Vec<Value> = Vec::new();
+    let res = runner::guard(|| -> Result<(), String> {
+        build("Lib", "Lib/lib.gom")?;
+        build("Extra", "Extra/lib.gom")?;
+        build("Main", "main.gom")?;
+        Ok(())
+    });
+    match res {
+        Ok(Ok(())) => {}
+        Ok(Err(e)) => {
+            case.violation("extra-core:consistent-build-rejected".to_string(), format!("a three-package project does not build: {}", util::truncate(&e, 200)), json!({"variant": variant}));
+            let _ = std::fs::remove_dir_all(&root);
+            return;
+        }
+        Err(p) => {
+            case.inconclusive(format!("compiler panic at {} (a C04 event)", p.site));
+            let _ = std::fs::remove_dir_all(&root);
+            return;
+        }
+    }
+    case.count("extra_core_scenarios", 1);
+    let mut step = |what: &str, pkgs: &[&str], expect_ok: bool, log: &mut Vec<Value>, case: &mut Case| {
+        let r = runner::guard(|| link(pkgs));
+        case.count("links", 1);
+        let got = match &r {
+            Ok(Ok(())) => "ok".to_string(),
+            Ok(Err(e)) => format!("err: {}", util::truncate(e, 160)),
+            Err(p) => format!("panic at {}", p.site),
+        };
+        log.push(json!({"op": what, "link": pkgs, "result": got, "model": expect_ok}));
+        match r {
+            Ok(Ok(())) if !expect_ok => case.violation("stale-link-accepted:core-not-reachable-from-main".to_string(), format!("{}: link of {:?} succeeded although Extra was built against another interface of Lib", what, pkgs), json!({"history": log.clone(), "variant": variant})),
+            Ok(Err(e)) if expect_ok => case.violation("consistent-link-rejected:extra-core".to_string(), format!("{}: link of {:?} failed although every package was built against the current interfaces: {}", what, pkgs, util::truncate(&e, 160)), json!({"history": log.clone(), "variant": variant})),
+            Err(p) => case.inconclusive(format!("compiler panic at {} (a C04 event)", p.site)),
+            _ => case.count(if expect_ok { "links_expected_ok" } else { "links_expected_fail" }, 1),
+        }
+    };
+    step("fresh build of all three", &["Main", "Lib", "Extra"], true, &mut log, case);
+    if !write("Lib/lib.gom", lib_v2) {
+        let _ = std::fs::remove_dir_all(&root);
+        return;
+    }
+    let rebuilt = runner::guard(|| -> Result<(), String> {
+        build("Lib", "Lib/lib.gom")?;
+        build("Main", "main.gom")
+    });
+    if !matches!(rebuilt, Ok(Ok(()))) {
+        case.count("extra_core_rebuild_failed", 1);
+        let _ = std::fs::remove_dir_all(&root);
+        return;
+    }
+    log.push(json!({"op": "edit Lib (interface-visible), rebuild Lib and Main, not Extra"}));
+    step("stale Extra linked along", &["Main", "Lib", "Extra"], false, &mut log, case);
+    step("stale Extra listed first", &["Extra", "Main", "Lib"], false, &mut log, case);
+    step("without Extra", &["Main", "Lib"], true, &mut log, case);
+    if matches!(runner::guard(|| build("Extra", "Extra/lib.gom")), Ok(Ok(()))) {
+        log.push(json!({"op": "rebuild Extra"}));
+        step("after rebuilding Extra", &["Main", "Lib", "Extra"], true, &mut log, case);
+    }
+    let _ = std::fs::remove_dir_all(&root);
+}
+
 fn run(ctx: &mut Ctx) {
     let tier = ctx.tier;
     let seed = ctx.seed;
@@ -835,6 +939,12 @@ fn run(ctx: &mut Ctx) {
                 None => c.inconclusive("could not build the project used for fault enumeration"),
             }
         });
+    }
+    for variant in 0..3usize {
+        if ctx.mine(950_000 + variant as u64) {
+            let scratch = crate::capi::scratch_dir().clone();
+            ctx.case(&format!("extra-core/{}", variant), |c| extra_core_scenario(c, &scratch, variant));
+        }
     }
     let _ = Tier::Quick;
     crate::capi::cleanup_scratch();
